@@ -121,6 +121,11 @@ type Options struct {
 	// and sites; default "github.com/lesismal/nbio/". Frames of the mempool
 	// package (the allocator API itself) never count.
 	FramePrefix string
+	// MoveOnGrow: an Append that has to grow the buffer returns a new pointer
+	// and frees the old buffer, as mempool.AlignedAllocator does (the default
+	// keeps the pointer like mempool.MemPool, whose callers get away with
+	// dropping the result). Shadow mode only.
+	MoveOnGrow bool
 }
 
 // Stats are the evidence counters.
@@ -517,6 +522,29 @@ func (a *Allocator) appendBytes(p *[]byte, mb []byte, ms string) *[]byte {
 		reps = append(reps, a.mkReport(KindAppendAfterFree, r, &cur, fmt.Sprintf("Append of %d bytes to a buffer (len %d cap %d) that has been freed", nmore, len(*p), cap(*p))))
 	case r.st == stAbandoned:
 		a.st.AbandonedAppends++
+	}
+	if a.o.MoveOnGrow && !a.o.Fault && r != nil && r.st == stLive && len(*p)+nmore > cap(*p) {
+		// growth the way a moving allocator does it: new buffer, new pointer, the old one is freed
+		need := len(*p) + nmore
+		nc := 2 * cap(*p)
+		if nc < need {
+			nc = need
+		}
+		_, nb := a.newRegion(nc, 3)
+		a.st.Grows++
+		nb = nb[:len(*p)]
+		copy(nb, *p)
+		a.mu.Unlock()
+		np := new([]byte)
+		*np = nb
+		a.Free(p)
+		if mb != nil {
+			*np = append(*np, mb...)
+		} else {
+			*np = append(*np, ms...)
+		}
+		a.deliver(reps)
+		return np
 	}
 	if r != nil && r.st == stLive && len(*p)+nmore > cap(*p) {
 		// growth: a new region, the old one is abandoned (not freed)
